@@ -519,7 +519,7 @@ fn c13_case(cfg: &CardCfg, op: OpK, fault: &FaultSpec, which_block: u32, label: 
     }
     let o = do_op(&mut rig, op, idx, 0xABCD);
     rep.evaluations += 1;
-    rep.distinct.insert(crate::prng::mix(&[cfg.kind as u64, cfg.crc as u64, op as u64, crate::prng::hash_bytes(label.as_bytes())]));
+    rep.distinct.insert(crate::prng::mix(&[cfg.hash(), op as u64, crate::prng::hash_bytes(label.as_bytes())]));
     rep.count(&format!("{:?} {}", op, label.split(' ').next().unwrap_or("")), 1);
     let call = format!("{:?}", op);
     if c14_only {
@@ -668,12 +668,16 @@ fn c13_case(cfg: &CardCfg, op: OpK, fault: &FaultSpec, which_block: u32, label: 
     Some(o)
 }
 
-fn c13_cfgs(rng: &mut Rng) -> Vec<CardCfg> {
+fn c13_cfgs(rng: &mut Rng, quick: bool) -> Vec<CardCfg> {
     let mut v = Vec::new();
+    // (response delay, data-token delay, busy length, ACMD41 repetitions): prompt, sluggish, seeded
+    let timings: Vec<(u64, u64, u64, u64)> = if quick { vec![(3, 6, 9, 2), (8, 60, 300, 12)] } else { vec![(3, 6, 9, 2), (8, 60, 300, 12), (0, 0, 0, 0), (8, 250, 2500, 50), (rng.below(9), rng.below(100), rng.below(1000), rng.below(30))] };
     for kind in [Kind::V1Sdsc, Kind::V2Sdsc, Kind::Sdhc] {
         for crc in [true, false] {
-            let csd = if kind == Kind::Sdhc { build_csd_v2(0x1000) } else { build_csd_v1(0x7FF, 6, 9) };
-            v.push(CardCfg { kind, csd, crc, seed: rng.next_u64(), max_ncr: 3, max_access: 6, max_busy: 9, acmd41_reps: 2 });
+            for (ti, t) in timings.iter().enumerate() {
+                let csd = if kind == Kind::Sdhc { build_csd_v2(if ti % 2 == 0 { 0x1000 } else { 0x3_0000 }) } else { build_csd_v1(if ti % 2 == 0 { 0x7FF } else { 0xFFF }, 6, 9 + (ti as u32 % 2)) };
+                v.push(CardCfg { kind, csd, crc, seed: rng.next_u64(), max_ncr: t.0, max_access: t.1, max_busy: t.2, acmd41_reps: t.3 });
+            }
         }
     }
     v
@@ -681,7 +685,7 @@ fn c13_cfgs(rng: &mut Rng) -> Vec<CardCfg> {
 
 pub fn run_c13_cases(ctx: &Ctx, c14_only: bool) -> Report {
     let mut rng = Rng::from_parts(&[ctx.seed, 0xC13]);
-    let cfgs = c13_cfgs(&mut rng);
+    let cfgs = c13_cfgs(&mut rng, ctx.quick());
     // work list: (cfg index, op, fault, which block, label)
     let mut work: Vec<(usize, OpK, FaultSpec, u32, String)> = Vec::new();
     let quick = ctx.quick();
